@@ -115,6 +115,10 @@ func writeEvidence(id, tier string, seed uint64, p *propInfo, a *aggregate, det 
 	if len(a.extra) > 0 {
 		cov["counters"] = a.extra
 	}
+	if a.numSites > 0 {
+		cov["go_cose_statements_reached"] = map[string]any{"yield_sites_passed": len(a.sites), "yield_sites_total": a.numSites,
+			"measure": "distinct statements of package cose (yield sites of the instrumented copy) executed at least once by this check"}
+	}
 	if len(a.skips) > 0 {
 		cov["skipped_run_reasons"] = a.skips
 	}
